@@ -4,7 +4,7 @@ C09 — from the invariant to the observables of the ledger (`liveSecrets`, `mul
 `accessesAfterClose`).
 -/
 set_option linter.unusedVariables false
-namespace AsherahVerif.Env
+namespace AsherahVerif.Env.Res
 
 theorem foldl_add_eq_zero {α : Type} (l : List α) (f : α → Nat) (a : Nat) :
     l.foldl (fun acc x => acc + f x) a = 0 ↔ a = 0 ∧ ∀ x ∈ l, f x = 0 := by
@@ -203,4 +203,4 @@ theorem validFrom_iff (w : World) (ops : List Op) : validFrom w ops ↔ validB w
   | nil => simp [validFrom, validB]
   | cons op rest ih => simp [validFrom, validB, opOk_iff, ih]
 
-end AsherahVerif.Env
+end AsherahVerif.Env.Res
